@@ -467,6 +467,9 @@ def run(repo, check):
     for f in r7.findings:
         f.rule = 'C14.R7'
     check.add(r7)
+    from sa.rules import c13 as _c13
+    from sa.rules.common import share as _sh
+    _sh(check, repo, _c13.rule_r7, 'C14.R8', 'table entries are not pooled across table versions: no module-level state (shared with C13.R7)')
     check.assumptions = ['the contents of the bundled Table B / D files are data and are not decided (a lint of the 40 table directories found replication '
                          'over-runs in 3 sequences; not claimed)',
                          'the tables are abstracted as lookup oracles; TableR.lookup is the repository\'s own code']
